@@ -109,7 +109,7 @@ def classify_text(prql, sql, err, dialect):
         return "double-minus-is-a-comment"
     if dialect == "ansi" and re.search(r"\b_expr_[0-9]+", sql):
         return "ansi-generated-identifier-leading-underscore"
-    if dialect == "mssql" and "found: AS" in err and re.search(r"(=|<>|<|>|<=|>=|IS NULL|IS NOT NULL|\bAND\b|\bOR\b|NOT )[^,]* AS \w+", sql):
+    if dialect == "mssql" and "found: AS" in err and re.search(r"(=|<>|<|>|<=|>=|IS NULL|IS NOT NULL|\bAND\b|\bOR\b|NOT ).*? AS \w+", sql):
         return "mssql-boolean-valued-select-item"
     if dialect == "redshift" and re.search(r"SELECT FROM ", sql):
         return "redshift-zero-column-select"
